@@ -1302,5 +1302,6 @@ func cmdC14Script(seed uint64, n int, dir string) {
 			}
 		}
 	}
+	c14MapHistories(st, r, 200+n/2) // c14map.go: native oracle, maps with 0 or 1 live entries after deletes
 	st.write(dir + "/C14_script_stats.json")
 }
